@@ -150,6 +150,10 @@ def sweep():
                 if size is None:
                     continue
                 before = body[:m.start()]
+                # `sizeof(<destination>)` / `sizeof <destination>` is the array size itself
+                dtxt = re.sub(r"^\(.*?\)\s*", "", dest)
+                szrx = r"sizeof\s*\(\s*" + re.escape(dtxt) + r"\s*\)|sizeof\s+" + re.escape(dtxt) + r"(?![\w\[.>-])"
+                args = [args[0]] + [re.sub(szrx, str(size), a) for a in args[1:]]
                 if api == "hio_read" and len(args) >= 3:
                     ea, eb = args[1], args[2]
                     va, vb = const_value(ea), const_value(eb)
